@@ -90,6 +90,7 @@ def C04(ctx):
     queues.michael_scott(ctx)
     queues.ramalhete(ctx)
     queues.nikolaev(ctx)
+    queues.swing_cas_expected(ctx)
     harris.use_after_move(ctx, FILES["C04"])
     return ("Decides structural necessary conditions of the three unbounded FIFO queues: link-before-swing and head/tail hand-over rules, ticket "
             "bounds and slot invalidation of the Ramalhete queue in every configuration, sticky finalisation flag of the SCQ (finite evaluation), "
@@ -246,6 +247,7 @@ def C15(ctx):
 
 def C16(ctx):
     progress.rules(ctx)
+    queues.swing_cas_expected(ctx)
     queues.kfifo(ctx)
     ctx.only_skip = ("KF.aba", "KF.protocol", "OWN.")
     return ("Decides: no wait construct (spin on a lock bit / flag / pending write, mutex acquisition) is reachable in the resolved call graph from any "
